@@ -242,6 +242,13 @@ def crafted(R):
     out.append(("str-2^20-present", tag(13) + i32(2 ** 20) + b"a" * 2 ** 20, ""))
     out.append(("str-2^20+1", tag(13) + i32(2 ** 20 + 1) + b"a" * (2 ** 20 + 1), ""))
     out.append(("bytes-2^20-short", tag(14) + i32(2 ** 20) + b"a" * 100, ""))
+    # compressed encodings (what dumpz writes): `loadb` is the decoder the server runs on unauthenticated bytes and must not inflate them -
+    # the gzip magic 1f 8b is an unknown type id; the plain text of the last two is a legal 1 MiB value behind about 1 kB of input
+    import gzip as _gzip
+    for lbl, plain in [("gzip-small", enc_bytes(b"abc")), ("gzip-seq", tag(16) + i8(3) + NULL * 3),
+                       ("gzip-bomb-bytes", tag(14) + i32(2 ** 20) + b"\x00" * 2 ** 20),
+                       ("gzip-bomb-str", tag(13) + i32(2 ** 20) + b"a" * 2 ** 20)]:
+        out.append((lbl, _gzip.compress(plain, mtime=0), ""))
     # unknown / reserved type ids
     for t in [0, 2, 7, 19, 20, 127, 255, 999, 65535, max(t for t in S.SerializableType.registry if t < 60000) + 1]:
         out.append(("unknown-id", tag(t) + b"\x00" * 8, ""))
